@@ -1,5 +1,6 @@
 import CoupeModel.Model.Random
 import CoupeModel.Proofs.Random
+import CoupeModel.Props.C03
 import CoupeModel.Props.C10
 import CoupeModel.Props.C12
 import CoupeModel.Props.C13
@@ -26,8 +27,9 @@ do not read the pool size; where the code does (`Grid::rcb`,
 `rayon::current_num_threads()`), `T` is a model parameter and the theorems are
 for all `T`.
 
-Wired so far: Ckk, Greedy, KarmarkarKarp, Grid 2-D/3-D, Random.  To come when
-their owners' theorems have landed: Rcb, Rib (C03), HilbertCurve, ZCurve (C09),
+Wired so far: Ckk, Greedy, KarmarkarKarp, Grid 2-D/3-D, Random, Rcb and Rib
+(ids and "no panic"; termination of the `f32` cut search is the owner's stated
+assumption, see `Rcb.total_statement`).  To come: HilbertCurve, ZCurve (C09),
 MultiJagged (C11).
 -/
 
@@ -201,6 +203,90 @@ theorem total (T : Nat) (bracket : Int → Option (Int × Int)) (w h d : Nat) (w
 
 end Grid3
 
+/-! ## Rcb and Rib (model `Coupe.Rcb.runBB` / `runRib`, theorems of C03)
+
+Generic in the coordinate type `α` (`f32` in the code); `laws : OrderLawsOn S`
+with every input coordinate in `S` is "the coordinates are not NaN and `<` is the
+IEEE order" (finite coordinates of the contract).  Any bounding box, any
+tolerance test `wt`, any pivot the cut search picks. -/
+
+namespace Rcb
+open Coupe.Rcb
+variable {α : Type} [Coord α]
+
+theorem length_ok {S : α → Prop} (laws : OrderLawsOn S) (wt : Int → Int → Bool) (cfg : Cfg)
+    (iter : Nat) (pts : List (List α)) (ws : List Int) (plen : Nat) (blo bhi : List α) (ids : List Nat)
+    (hS : ∀ p ∈ pts, ∀ c, S (p.getD c Coord.zero))
+    (h : runBB wt cfg iter pts ws plen blo bhi = .ok ids) : ids.length = pts.length := by
+  obtain ⟨_, _, _, _, _, hl, _⟩ := rcb_is_bisection laws wt cfg iter pts ws plen blo bhi ids hS h
+  exact hl
+
+/-- Every id is below `2^iter_count`. -/
+theorem ids_lt {S : α → Prop} (laws : OrderLawsOn S) (wt : Int → Int → Bool) (cfg : Cfg)
+    (iter : Nat) (pts : List (List α)) (ws : List Int) (plen : Nat) (blo bhi : List α) (ids : List Nat)
+    (hS : ∀ p ∈ pts, ∀ c, S (p.getD c Coord.zero))
+    (h : runBB wt cfg iter pts ws plen blo bhi = .ok ids) : ∀ i ∈ ids, i < 2 ^ iter := by
+  obtain ⟨_, _, _, _, _, _, hlt⟩ := rcb_is_bisection laws wt cfg iter pts ws plen blo bhi ids hS h
+  exact hlt
+
+/-- The full totality statement: with matching lengths the run returns ids. -/
+def total_statement (α : Type) [Coord α] (S : α → Prop) : Prop :=
+  ∀ (wt : Int → Int → Bool) (cfg : Cfg) (iter : Nat) (pts : List (List α)) (ws : List Int)
+    (blo bhi : List α), (∀ p ∈ pts, ∀ c, S (p.getD c Coord.zero)) → ws.length = pts.length →
+    ∃ ids, runBB wt cfg iter pts ws pts.length blo bhi = .ok ids
+
+/-- What is proved of it: with matching lengths the only way not to return ids is
+a cut search that exceeds its fuel – no index leaves the arrays, no length error.
+(Termination of the cut search: `Coupe.Rcb.split_terminates_int` for integer
+coordinates; for `f32` the fuel is C03's stated assumption.) -/
+theorem total_partial {S : α → Prop} (laws : OrderLawsOn S) (wt : Int → Int → Bool) (cfg : Cfg)
+    (iter : Nat) (pts : List (List α)) (ws : List Int) (blo bhi : List α)
+    (hS : ∀ p ∈ pts, ∀ c, S (p.getD c Coord.zero)) (hlen : ws.length = pts.length) :
+    (∃ ids, runBB wt cfg iter pts ws pts.length blo bhi = .ok ids) ∨
+      runBB wt cfg iter pts ws pts.length blo bhi = .fuel := by
+  have hoob := rcb_no_out_of_bounds laws wt cfg iter pts ws pts.length blo bhi hS
+  cases hr : runBB wt cfg iter pts ws pts.length blo bhi with
+  | ok ids => exact .inl ⟨ids, rfl⟩
+  | fuel => exact .inr rfl
+  | oob => exact absurd hr hoob
+  | lenMismatch =>
+    exfalso
+    unfold runBB at hr
+    rw [if_neg (by omega), if_neg (by omega)] at hr
+    split at hr
+    · cases hr
+    · split at hr <;> cases hr
+
+/-- Non-vacuity (`α = Int`, `intOrderLaws`): more parts than points (3 coincident points,
+8 parts), and one heavy element among zero weights. -/
+example : run (α := Int) (fun _ _ => false) ⟨2, 100⟩ 3
+    [[1, 1], [1, 1], [1, 1]] [1, 1, 1] 3 = .ok [0, 0, 0] := by decide +kernel
+example : run (α := Int) (fun _ _ => false) ⟨2, 100⟩ 2
+    [[0, 0], [4, 1], [8, 0], [12, 1]] [0, 1000, 0, 0] 4 = .ok [0, 2, 2, 2] := by decide +kernel
+
+end Rcb
+
+namespace Rib
+open Coupe.Rcb
+variable {α : Type} [Coord α]
+
+/-- For EVERY frame `rotate` (the inertia computation is numerical code outside the model). -/
+theorem length_ok {β : Type} {S : α → Prop} (laws : OrderLawsOn S) (rotate : β → List α)
+    (wt : Int → Int → Bool) (cfg : Cfg) (iter : Nat) (pts : List β) (ws : List Int) (plen : Nat)
+    (ids : List Nat) (hS : ∀ p ∈ pts, ∀ c, S ((rotate p).getD c Coord.zero))
+    (h : runRib rotate wt cfg iter pts ws plen = .ok ids) : ids.length = pts.length := by
+  obtain ⟨_, _, _, _, _, hl, _⟩ := rib_is_bisection laws rotate wt cfg iter pts ws plen ids hS h
+  exact hl
+
+theorem ids_lt {β : Type} {S : α → Prop} (laws : OrderLawsOn S) (rotate : β → List α)
+    (wt : Int → Int → Bool) (cfg : Cfg) (iter : Nat) (pts : List β) (ws : List Int) (plen : Nat)
+    (ids : List Nat) (hS : ∀ p ∈ pts, ∀ c, S ((rotate p).getD c Coord.zero))
+    (h : runRib rotate wt cfg iter pts ws plen = .ok ids) : ∀ i ∈ ids, i < 2 ^ iter := by
+  obtain ⟨_, _, _, _, _, _, hlt⟩ := rib_is_bisection laws rotate wt cfg iter pts ws plen ids hS h
+  exact hlt
+
+end Rib
+
 /-! ## Random (model `Coupe.Random.run`; the generator is a parameter)
 
 `Lawful g` is the trusted contract of `rand`: `gen_range(0..k)` returns a value
@@ -259,6 +345,11 @@ end Coupe.C01
 #print axioms Coupe.C01.Grid3.length_ok
 #print axioms Coupe.C01.Grid3.ids_lt
 #print axioms Coupe.C01.Grid3.total
+#print axioms Coupe.C01.Rcb.length_ok
+#print axioms Coupe.C01.Rcb.ids_lt
+#print axioms Coupe.C01.Rcb.total_partial
+#print axioms Coupe.C01.Rib.length_ok
+#print axioms Coupe.C01.Rib.ids_lt
 #print axioms Coupe.C01.Random.length_ok
 #print axioms Coupe.C01.Random.ids_lt
 #print axioms Coupe.C01.Random.total
